@@ -71,10 +71,13 @@ func (eval Evaluator[T]) Evaluate(input interface{}, p interface{}, targetScale 
 		odd, even = odd || p.IsOdd, even || p.IsEven
 	}
 
-	// Computes all the powers of two with relinearization
-	// This will recursively compute and store all powers of two up to 2^logDegree
-	if err = powerbasis.GenPower(1<<(logDegree-1), false, eval); err != nil {
-		return nil, err
+	// Computes all the powers of two with relinearization, from X^2 up to 2^(logDegree-1), one by one:
+	// a power basis given by the caller may hold a power of two without holding the smaller ones
+	// (which the baby steps and the giant steps use as well).
+	for i := 1; i < logDegree; i++ {
+		if err = powerbasis.GenPower(1<<i, false, eval); err != nil {
+			return nil, err
+		}
 	}
 
 	// Computes the intermediate powers, starting from the largest, without relinearization if possible
